@@ -71,8 +71,25 @@ func runC08(c *Ctx) {
 	for _, rc := range readCalls {
 		key := fname(loopFn) + ":dispatch-of-read"
 		if flow.InnermostLoop(loops, rc) == nil {
-			r.Fail("R1", key, c.pos(rc), "the message read is not inside a loop")
-			continue
+			// peeled form: the first read is written out in front of the loop, whose body ends with the next read
+			peeled := false
+			for _, o := range readCalls {
+				if l := flow.InnermostLoop(loops, o); o != rc && l != nil && rc.Block().Dominates(l.Head) {
+					peeled = true
+				}
+			}
+			if !peeled {
+				r.Fail("R1", key, c.pos(rc), "the message read is not inside a loop")
+				continue
+			}
+		}
+		isRead := func(in ssa.Instruction) bool {
+			for _, o := range readCalls {
+				if ssa.Instruction(o) == in {
+					return true
+				}
+			}
+			return false
 		}
 		// the *Message result
 		var msg ssa.Value
@@ -92,7 +109,27 @@ func runC08(c *Ctx) {
 		var dispatch []*ssa.Call
 		bad := ""
 		var badAt ssa.Instruction
-		for _, ref := range flow.Referrers(msg) {
+		// the uses of the message, also where it is first merged with the message of another read of the loop
+		var uses []ssa.Instruction
+		{
+			seen := map[ssa.Value]bool{}
+			var walk func(v ssa.Value)
+			walk = func(v ssa.Value) {
+				if seen[v] {
+					return
+				}
+				seen[v] = true
+				for _, ref := range flow.Referrers(v) {
+					if ph, isPhi := ref.(*ssa.Phi); isPhi {
+						walk(ph)
+						continue
+					}
+					uses = append(uses, ref)
+				}
+			}
+			walk(msg)
+		}
+		for _, ref := range uses {
 			switch u := ref.(type) {
 			case *ssa.Call:
 				if isHandlerInvocation(u) {
@@ -178,12 +215,12 @@ func runC08(c *Ctx) {
 		}
 		d := dispatch[0]
 		// every cycle read -> read passes the dispatch call
-		if p := flow.PathAvoiding(loopFn, rc, func(in ssa.Instruction) bool { return in == ssa.Instruction(rc) }, func(in ssa.Instruction) bool { return in == ssa.Instruction(d) }); p != nil {
+		if p := flow.PathAvoiding(loopFn, rc, isRead, func(in ssa.Instruction) bool { return in == ssa.Instruction(d) }); p != nil {
 			r.Fail("R1", key, c.pos(rc), "a cycle through the per-iteration read avoids the dispatch call (a message can be read and never handed to a handler before the next read)", c.witness(p)...)
 			continue
 		}
 		// dispatch happens before the next read: dispatch is in the same loop and reached from the read without re-reading
-		if p := flow.PathAvoiding(loopFn, rc, func(in ssa.Instruction) bool { return in == ssa.Instruction(d) }, func(in ssa.Instruction) bool { return in == ssa.Instruction(rc) }); p == nil {
+		if p := flow.PathAvoiding(loopFn, rc, func(in ssa.Instruction) bool { return in == ssa.Instruction(d) }, isRead); p == nil {
 			r.Fail("R1", key, c.pos(d), "the dispatch call is not reachable from the read")
 			continue
 		}
